@@ -541,6 +541,8 @@ impl Writer {
   // Receive new data samples from the DDS DataWriter
   pub fn process_writer_command(&mut self) {
     while let Ok(cc) = self.writer_command_receiver.try_recv() {
+      #[cfg(rustdds_verif)]
+      crate::verif_hooks::sched::yield_point("writer.popped");
       match cc {
         WriterCommand::DDSData {
           ddsdata: dds_data,
@@ -556,6 +558,8 @@ impl Writer {
               .as_ref()
               .map(|w| w.wake_by_ref());
           }
+          #[cfg(rustdds_verif)]
+          crate::verif_hooks::sched::yield_point("writer.woke");
 
           // Insert data to local HistoryBuffer
           let timestamp =
@@ -655,6 +659,8 @@ impl Writer {
               readers_pending,
             })
           };
+          #[cfg(rustdds_verif)]
+          crate::verif_hooks::sched::yield_point("writer.ack_wait_handled");
         }
       }
     }
